@@ -1,6 +1,9 @@
 package main
 
 import (
+	"fmt"
+	"go/token"
+	"sort"
 	"strings"
 
 	"golang.org/x/tools/go/ssa"
@@ -68,4 +71,225 @@ func checkC04(c *Ctx, r *Report) {
 	connOwn.checkAcquireErrorExits(r2, "(*p2p/transport/webtransport.transport).dial", []string{"(*p2p/transport/quicreuse.ConnManager).DialQUIC"}, 0, false)
 	connOwn.checkAcquireErrorExits(r2, "(*p2p/protocol/circuitv2/client.Client).dialAndUpgrade", []string{"(*p2p/protocol/circuitv2/client.Client).dial"}, 0, true)
 	connOwn.checkParamErrorExits(r2, "p2p/transport/tcpreuse.identifyConnType", "c", true)
+
+	// ---- R3 ---------------------------------------------------------------
+	r3 := r.Rule("C04-R3", "E2/E1", 6, "streams are reset on every failing / non-dispatching exit of the functions that hold them")
+	strOwn := newOwn(c, ownSpec{what: "stream", relNames: []string{"Reset", "ResetWithError", "Close"}, listedTransfersOnly: true})
+	for _, k := range []string{"(*p2p/host/basic.BasicHost).newStreamHandler", "(*p2p/host/blank.BlankHost).newStreamHandler"} {
+		if f := r3.need(k); f != nil {
+			p := paramByName(f, "s")
+			hs := buildHandleSet(f, []ssa.Value{p}, nil)
+			w, n := strOwn.held(f, hs, nil, nil, "all", nil, nil, 0)
+			r3.Check(w == "", k+": every exit resets the stream or dispatches it to the negotiated handler", f.Pos(), n+1, "", "an inbound stream can be abandoned without reset (its scope and the remote side stay open)", w)
+		}
+	}
+	for _, k := range []string{"(*p2p/host/basic.BasicHost).NewStream", "(*p2p/host/blank.BlankHost).NewStream"} {
+		strOwn.checkAcquireErrorExits(r3, k, []string{"(core/network.*).NewStream"}, 0, false)
+	}
+	// swarm: a muxed stream refused by the resource manager or by a closed conn is reset
+	if f := r3.need("(*p2p/net/swarm.Conn).addStream"); f != nil {
+		p := paramByName(f, "ts")
+		hs := buildHandleSet(f, []ssa.Value{p}, nil)
+		w, n := strOwn.held(f, hs, nil, nil, "error", nil, nil, 0)
+		r3.Check(w == "", "(*p2p/net/swarm.Conn).addStream: muxed stream reset on every error exit", f.Pos(), n+1, "", "", w)
+	}
+	if f := c.Fn("(*p2p/net/swarm.Conn).start"); f != nil {
+		for _, cl := range f.AnonFuncs {
+			for _, acq := range callsIn(cl, "(core/network.*).AcceptStream") {
+				var h ssa.Value
+				for _, ref := range *acq.(ssa.Value).Referrers() {
+					if e, ok := ref.(*ssa.Extract); ok && e.Index == 0 {
+						h = e
+					}
+				}
+				if h == nil {
+					continue
+				}
+				hs := buildHandleSet(cl, []ssa.Value{h}, nil)
+				mux := newOwn(c, ownSpec{what: "muxed stream", relNames: []string{"Reset", "ResetWithError", "Close"}})
+				acqErr := edgeNil(func(v ssa.Value) bool { ci, i := resultOf(v); return ci == acq && i == 1 }, false)
+				w, n := mux.held(cl, hs, []ssa.Instruction{acq.(ssa.Instruction)}, nil, "all", acqErr, acq.(ssa.Instruction), 0)
+				r3.Check(w == "", "(*p2p/net/swarm.Conn).start loop: accepted muxed stream is reset or handed to addStream", instrPos(acq.(ssa.Instruction)), n+1, "", "an accepted stream is dropped (e.g. when OpenStream is refused) without reset", w)
+			}
+		}
+	} else {
+		r3.Err("(*p2p/net/swarm.Conn).start", "does not resolve")
+	}
+	if f := r3.need("(*p2p/net/swarm.Conn).openAndAddStream"); f != nil {
+		_ = f
+	}
+
+	// ---- R4 ---------------------------------------------------------------
+	r4 := r.Rule("C04-R4", "E1/E3", 12, "Swarm.refs: Add sites and Done sites match the pairing table; every Done-obligated function performs Done on all its exits")
+	refsKey := "p2p/net/swarm.Swarm.refs"
+	isRefs := func(in ssa.Instruction, method string) bool {
+		ci, ok := in.(ssa.CallInstruction)
+		if !ok || calleeKey(ci) != "(*sync.WaitGroup)."+method {
+			return false
+		}
+		f, base := fieldAddrOf(ci.Common().Args[0])
+		return f != nil && fieldKeyOf(base, f) == refsKey
+	}
+	sw := "(*p2p/net/swarm.Swarm)."
+	wantAdd := map[string][]int64{ // root function -> constant Add arguments (-1: dynamic)
+		sw + "close":                    {-1},
+		sw + "addConn":                  {2},
+		"(*p2p/net/swarm.Conn).start":   {1},
+		"(*p2p/net/swarm.Conn).addStream": {1},
+		sw + "AddListenAddr":            {1, 1},
+	}
+	wantDone := map[string]int{
+		sw + "close": 1, "(*p2p/net/swarm.Conn).doClose": 1, "(*p2p/net/swarm.Conn).start": 2,
+		"(*p2p/net/swarm.Stream).closeAndRemoveStream": 1, sw + "AddListenAddr": 2,
+	}
+	gotAdd := map[string][]int64{}
+	gotDone := map[string]int{}
+	var doneFns []*ssa.Function
+	for _, f := range c.FnsOfPkg(swarmP) {
+		root := fnKey(c.Root(f))
+		for _, in := range findInstrs(f, func(in ssa.Instruction) bool { return isRefs(in, "Add") }) {
+			k, ok := constInt(in.(ssa.CallInstruction).Common().Args[1])
+			if !ok {
+				k = -1
+			}
+			gotAdd[root] = append(gotAdd[root], k)
+		}
+		if n := len(findInstrs(f, func(in ssa.Instruction) bool { return isRefs(in, "Done") })); n > 0 {
+			gotDone[root] += n
+			doneFns = append(doneFns, f)
+		}
+	}
+	for root, want := range wantAdd {
+		got := gotAdd[root]
+		sort.Slice(got, func(i, j int) bool { return got[i] < got[j] })
+		sort.Slice(want, func(i, j int) bool { return want[i] < want[j] })
+		r4.Check(fmt.Sprint(got) == fmt.Sprint(want), "refs.Add in "+root, token.NoPos, len(got)+1, fmt.Sprint(want), "the number of references taken here no longer matches the Done obligations paired with it", fmt.Sprint(got))
+	}
+	for root := range gotAdd {
+		if _, ok := wantAdd[root]; !ok {
+			r4.Fail("refs.Add in "+root, token.NoPos, "unpaired new Add site: add it to the pairing table with its Done obligations", "")
+		}
+	}
+	for root, want := range wantDone {
+		r4.Check(gotDone[root] == want, "refs.Done in "+root, token.NoPos, want, "", "a Done obligation was added or removed without its Add", fmt.Sprint(gotDone[root]))
+	}
+	for root := range gotDone {
+		if _, ok := wantDone[root]; !ok {
+			r4.Fail("refs.Done in "+root, token.NoPos, "unpaired new Done site", "")
+		}
+	}
+	for _, f := range doneFns {
+		isDone := func(in ssa.Instruction) bool { return isRefs(in, "Done") }
+		if fnKey(f) == "(*p2p/net/swarm.Stream).closeAndRemoveStream" {
+			dones := findInstrs(f, isDone)
+			closedT := swarmP + ".Stream.isClosed"
+			r4.guard(f, "refs.Done", dones, "!isClosed (once per stream)", edgeBool(isLoadOfField(closedT), false), nil)
+			w, n := (&Cut{Fn: f, Target: inSet(dones), Sep: func(in ssa.Instruction) bool {
+				st, ok := in.(*ssa.Store)
+				if !ok || !isFieldWrite(in, closedT) {
+					return false
+				}
+				b, isC := constBool(st.Val)
+				return isC && b
+			}}).Run(c)
+			r4.Check(w == "", fnKey(f)+": isClosed = true precedes refs.Done", f.Pos(), n+1, "", "", w)
+			continue
+		}
+		// deferred closure body that ends with Done (AddListenAddr's deferred block) runs to completion: straight-line requirement
+		q := &Cut{Fn: f, Target: func(in ssa.Instruction) bool { _, ok := in.(*ssa.Return); return ok }, Sep: isDone}
+		w, n := q.Run(c)
+		r4.Check(w == "", fnKey(f)+": refs.Done on every exit", f.Pos(), n+1, "", "a path leaves the goroutine / function without releasing its swarm reference (Swarm.Close would hang)", w)
+	}
+	// after each Add, the party that owes the Done is started on every path
+	startAfterAdd := func(fnK string, isStart func(ssa.Instruction) bool, what string) {
+		var fs []*ssa.Function
+		if f := c.Fn(fnK); f != nil {
+			fs = append(fs, f)
+			fs = append(fs, allAnon(f)...)
+		} else {
+			r4.Err(fnK, "does not resolve")
+			return
+		}
+		for _, f := range fs {
+			for _, add := range findInstrs(f, func(in ssa.Instruction) bool { return isRefs(in, "Add") }) {
+				q := &Cut{Fn: f, From: []ssa.Instruction{add}, Target: func(in ssa.Instruction) bool {
+					_, ok := in.(*ssa.Return)
+					return ok || in == add
+				}, Sep: isStart}
+				w, n := q.Run(c)
+				r4.Check(w == "", fnKey(f)+": after refs.Add every path starts "+what, instrPos(add), n+1, "", "a reference is taken but the party that releases it is not started on some path", w)
+			}
+		}
+	}
+	isGo := func(in ssa.Instruction) bool { _, ok := in.(*ssa.Go); return ok }
+	startAfterAdd("(*p2p/net/swarm.Conn).start", isGo, "the stream goroutine")
+	startAfterAdd(sw+"AddListenAddr", isGo, "the accept / connection goroutine")
+	startAfterAdd(sw+"addConn", callPred("(*p2p/net/swarm.Conn).start"), "c.start()")
+
+	// ---- R5 ---------------------------------------------------------------
+	r5 := r.Rule("C04-R5", "E8/E7", 3, "helper goroutines: result channel has constant capacity >= 1 and the goroutine sends exactly once on every path")
+	for _, k := range []string{"(*p2p/net/upgrader.upgrader).setupMuxer", "(*p2p/net/upgrader.upgrader).negotiateSecurity", noiseP + ".newSecureSession"} {
+		f := r5.need(k)
+		if f == nil {
+			continue
+		}
+		var mk *ssa.MakeChan
+		allInstrs(f, func(in ssa.Instruction) {
+			if m, ok := in.(*ssa.MakeChan); ok {
+				mk = m
+			}
+		})
+		capOK := false
+		if mk != nil {
+			n, ok := constInt(mk.Size)
+			capOK = ok && n >= 1
+		}
+		r5.Check(capOK, k+": result channel buffered (capacity >= 1)", f.Pos(), 1, "", "the helper goroutine blocks forever when the caller stopped waiting (context cancelled)", "")
+		for _, cl := range f.AnonFuncs {
+			sends := findInstrs(cl, func(in ssa.Instruction) bool { _, ok := in.(*ssa.Send); return ok })
+			if len(sends) == 0 {
+				continue
+			}
+			w1, n1 := (&Cut{Fn: cl, Target: func(in ssa.Instruction) bool { _, ok := in.(*ssa.Return); return ok }, Sep: inSet(sends)}).Run(c)
+			w2 := ""
+			for _, sd := range sends {
+				if w, _ := (&Cut{Fn: cl, From: []ssa.Instruction{sd}, Target: inSet(sends)}).Run(c); w != "" {
+					w2 = w
+				}
+			}
+			r5.Check(w1 == "" && w2 == "", fnKey(cl)+": exactly one send on every path", cl.Pos(), n1+len(sends), "", "the helper goroutine can finish without reporting (caller hangs) or report twice (goroutine blocks)", w1+w2)
+		}
+	}
+
+	// ---- R6 ---------------------------------------------------------------
+	r6 := r.Rule("C04-R6", "E1", 4, "close paths release their scope on every path")
+	for _, e := range []struct{ fn, field string }{
+		{"(*p2p/net/upgrader.transportConn).Close", "p2p/net/upgrader.transportConn.scope"},
+		{"(*p2p/net/upgrader.transportConn).CloseWithError", "p2p/net/upgrader.transportConn.scope"},
+		{"(*p2p/transport/tcpreuse.connWithScope).Close", "p2p/transport/tcpreuse.connWithScope.ConnScope"},
+		{"(*p2p/net/swarm.Conn).removeStream", "p2p/net/swarm.Stream.scope"},
+	} {
+		f := r6.need(e.fn)
+		if f == nil {
+			continue
+		}
+		isDone := func(in ssa.Instruction) bool {
+			ci, ok := in.(ssa.CallInstruction)
+			if !ok || !calleeNameIs(in, "Done") {
+				return false
+			}
+			return isLoadOfField(e.field)(strip2(callArgs(ci)[0]))
+		}
+		w, n := (&Cut{Fn: f, Target: func(in ssa.Instruction) bool { _, ok := in.(*ssa.Return); return ok }, Sep: isDone}).Run(c)
+		r6.Check(w == "", e.fn+": scope.Done() on every path", f.Pos(), n+1, "", "closing no longer releases the resource scope", w)
+	}
+}
+
+func allAnon(f *ssa.Function) []*ssa.Function {
+	var out []*ssa.Function
+	for _, a := range f.AnonFuncs {
+		out = append(out, a)
+		out = append(out, allAnon(a)...)
+	}
+	return out
 }
